@@ -16,7 +16,7 @@ META = dict(
                 'tied by running the extracted model and every C++ output path on the same inputs.'),
     level_note=('Trusted: Coq kernel + vm_compute; cxx2v translator and clang AST; ExtrOcamlBasic extraction; the C++ loops around '
                 'the generated leaf functions are modelled by hand and tied by correspondence (exhaustive for length<=2), not verified; '
-                'form-widget rendering path is covered only through util::escape which it calls.'),
+                'form-widget rendering (src/form.cpp) is tied by correspondence only: 18 value/id/label/message slots x 4 render modes.'),
 )
 
 GEN = {
@@ -92,6 +92,21 @@ def gen_cases(ctx):
         cases.append('esc ' + hexs(s))
         room = rng.randrange(0, 6 * ln + 2)
         cases.append('escs %d %s' % (room, hexs(s)))
+    # form widgets: every value / id / label / message slot of every widget kind, both doctypes and both list layouts
+    payloads = [b'', b'<', b'>', b'&', b'"', b"'", b'<script>alert(1)</script>', b'" onmouseover="x', b"' x='", b'&amp;', b'&#39;<',
+                b'a&b<c>d"e\'f', b'\x00<\xff>', b'</textarea><script>', b'</option></select><img src=x>', b'plain text']
+    for _ in range(ctx.scale(40, 400)):
+        ln = rng.randrange(1, 40)
+        payloads.append(bytes(rng.choice(SPECIAL + b'ab;#39ltgmpquo\x01\xfe =/') for _ in range(ln)))
+    for kind in FORM_KINDS:
+        for mode in range(4):
+            for pl in payloads:
+                if kind in MESSAGE_KINDS:
+                    # these slots hold a booster::locale::message: the text is first translated/charset-converted for the
+                    # stream's locale (which drops bytes that are not valid in the target charset and stops at NUL) and
+                    # only then escaped - so only 7-bit NUL-free payloads have a defined expected rendering
+                    pl = bytes(b for b in pl if 0 < b < 128)
+                cases.append('form %s %d %s' % (kind, mode, hexs(pl)))
     # long random strings (up to 64 KiB)
     for ln in [1000, 4096, 65535, 65536] if ctx.quick() else [1000, 4096, 65535, 65536, 65537, 100000, 262144]:
         s = bytes(rng.getrandbits(8) for _ in range(ln))
@@ -101,6 +116,10 @@ def gen_cases(ctx):
     return cases
 
 
+FORM_KINDS = ['text_value', 'text_value_input', 'textarea_value', 'hidden_value', 'message', 'help', 'error_message',
+              'checkbox_ident', 'submit_value', 'select_id', 'select_text', 'select_tr_text', 'multi_id', 'multi_text',
+              'multi_tr_text', 'radio_id', 'radio_text', 'radio_tr_text']
+MESSAGE_KINDS = {'message', 'help', 'error_message', 'submit_value', 'select_tr_text', 'multi_tr_text', 'radio_tr_text'}
 ENT = {b'lt': b'<', b'gt': b'>', b'amp': b'&', b'quot': b'"', b'#39': b"'"}
 
 
@@ -142,6 +161,14 @@ def oracle(case, out):
             return ('escape-leaves-markup', 'escaped text contains one of < > " \'')
         if py_unescape(r) != s:
             return ('escape-not-invertible', 'escaped text does not un-escape to the input (bare & or wrong entity)')
+    elif op == 'form':
+        if o[1] in ('NO-PLACEHOLDER', 'STRUCTURE-DIFFERS'):
+            return ('form-widget-structure-' + c[1], 'rendering the widget with this value changes the markup around the value slot (value not confined to its slot): ' + out[:200])
+        s, r = unhex(c[3]), unhex(o[1])
+        if any(ch in r for ch in b'<>"\''):
+            return ('form-widget-leaves-markup-' + c[1], 'widget slot %s rendered a value containing one of < > " \'' % c[1])
+        if py_unescape(r) != s:
+            return ('form-widget-not-invertible-' + c[1], 'widget slot %s: rendered text does not un-escape to the value' % c[1])
     elif op == 'escs':
         s, r, ok = unhex(c[2]), unhex(o[1]), o[2]
         room = int(c[1])
@@ -213,7 +240,7 @@ def nontrivial(case, out):
     if h == '-':
         return False
     s = unhex(h)
-    if c[0] in ('esc', 'escs'):
+    if c[0] in ('esc', 'escs', 'form'):
         return any(ch in SPECIAL for ch in s)
     if c[0] == 'uenc':
         return any(ch not in UNRES for ch in s)
@@ -241,7 +268,7 @@ def run(ctx):
         'Coq 8.16.1 kernel, vm_compute (sweeps); no native_compute',
         'tools/cxx2v.py + clang 14 JSON AST (leaf functions regenerated from src/util.cpp, src/base64.cpp, private/http_protocol.h)',
         'extraction: ExtrOcamlBasic only (Extract Inductive bool/option/unit/list/prod/sumbool/sumor, Extract Inlined Constant andb/orb/negb/fst/snd), OCaml 4.13.1',
-        'harness/C15_codecs.cpp, ocaml/C15_driver.ml, checks/C15.py (generators, canonicalisation, oracles using Python html/urllib/base64)',
+        'harness/C15_codecs.cpp (incl. cppcms::widgets rendering through form_context), ocaml/C15_driver.ml, checks/C15.py (generators, canonicalisation, oracles using Python html/urllib/base64)',
         'hand model of the loops around the generated leafs (coq/C15/Defs.v)']
     ctx.assumptions = ['signed arithmetic in translated leaf functions does not overflow (UB in C++)',
                        'char is signed 8-bit on this target (x86-64), as clang reports']
